@@ -715,7 +715,8 @@ def r4(ctx):
                 if isinstance(a, (ast.FunctionDef, ast.With)):
                     break
             if not isinstance(loop, ast.While):
-                problems.append(f"line {c.lineno}: wait() is not inside a `while` loop (a spurious or stolen wake-up proceeds)")
+                problems.append(f"line {c.lineno}: wait() is not inside a `while` loop: after a spurious or stolen wake-up the predicate is not "
+                                f"re-tested and waited on again (the caller proceeds, or gives up with {exc_name} long before its timeout)")
                 continue
             t = loop.test
             if not (isinstance(t, ast.Call) and call_name(t) == f"self.{pred}"):
@@ -986,7 +987,10 @@ def r6(ctx):
 # methods or of a method of one of its attributes (reads and logging are harmless).  Every ownership field is
 # therefore written BEFORE the hand-back (`fairy_ref = None` in checkin: ":clear-before-return" above is the
 # must-precede half, this is the must-not-follow half, for every hand-back site of pool/base.py).
-HAND_BACK = ("_return_conn", "_do_return_conn", "checkin", "_checkin_failed")
+HAND_BACK = ("_return_conn", "_do_return_conn", "checkin", "_checkin_failed", "detach")
+# (_finalize_fairy hands back conditionally; it is judged as a function of its own, not inlined into its callers,
+# whose constant arguments -- ref=None -- make half of its paths infeasible)
+_HAND_BACK_KEEP = HAND_BACK + ("_finalize_fairy",)
 
 
 def _hand_back_call(c):
@@ -999,6 +1003,11 @@ def _hand_back_call(c):
         if len(c.args) != 1 or c.keywords:
             return None
         return last, dotted(c.args[0])
+    if last == "detach":
+        # fairy.detach() returns the fairy's record
+        if c.args or c.keywords:
+            return None
+        return last, recv + "._connection_record"
     return last, recv
 
 
@@ -1018,16 +1027,76 @@ def _touches(part, obj):
     return out
 
 
+def _bind(call, params):
+    """{param: argument expr} of a call against a parameter list (positional + keyword; no *args)."""
+    out = {}
+    for i, a in enumerate(call.args):
+        if isinstance(a, ast.Starred) or i >= len(params):
+            return None
+        out[params[i]] = a
+    for k in call.keywords:
+        if k.arg is None:
+            return None
+        out[k.arg] = k.value
+    return out
+
+
+def _field_aliases(ctx, f, obj):
+    """Other names the function `f` has for `<holder>.<field>` (= obj), derived from where `holder` comes from:
+    * `holder = Cls(.., R, ..)` and Cls.__init__ stores that parameter in `self.<field>`  ->  R;
+    * if `holder` is also a parameter of f: R counts only if every call of f that passes a holder passes
+      `<that holder>.<field>` for R (the callers' contract)."""
+    holder, _, field = obj.rpartition(".")
+    if not holder.isidentifier():
+        return set()
+    m = f.module
+    cands = set()
+    for nm, val, st in name_stores(f.node):
+        if nm != holder or not isinstance(val, ast.Call):
+            continue
+        cls = m.classes.get(call_name(val) or "")
+        init = cls.methods.get("__init__") if cls is not None else None
+        if init is None:
+            continue
+        b = _bind(val, [p_ for p_ in init.params if p_ != "self"])
+        if b is None:
+            continue
+        for d, t, s2 in attr_stores(init.node):
+            if d == "self." + field and isinstance(s2, ast.Assign) and isinstance(s2.value, ast.Name) and s2.value.id in b:
+                a = dotted(b[s2.value.id])
+                if a:
+                    cands.add(a)
+    if holder in f.params:
+        for a in sorted(cands):
+            if a not in f.params:
+                cands.discard(a)
+                continue
+            for c in ast.walk(m.tree):
+                if not (isinstance(c, ast.Call) and (call_name(c) or "").rsplit(".", 1)[-1] == f.name):
+                    continue
+                b = _bind(c, f.params)
+                if b is None:
+                    cands.discard(a)
+                    break
+                h = b.get(holder)
+                if h is None or (isinstance(h, ast.Constant) and h.value is None):
+                    continue
+                if a not in b or dotted(b[a]) != f"{dotted(h)}.{field}":
+                    cands.discard(a)
+                    break
+    return cands
+
+
 def _no_touch_after_hand_back(ctx):
     m = ctx.index.module(POOL)
     funcs = [f for f in ctx.index.all_functions(m) if not f.type_only and not f.is_overload]
     direct = {f.key for f in funcs if any(_hand_back_call(c) for c in calls_in(f.node))}
-    helper_names = {k.rsplit(".", 1)[-1].rsplit("::", 1)[-1] for k in direct} - set(HAND_BACK)
+    helper_names = {k.rsplit(".", 1)[-1].rsplit("::", 1)[-1] for k in direct} - set(_HAND_BACK_KEEP)
     n_sites = 0
     for f0 in funcs:
         if f0.key not in direct and not any((call_name(c) or "").rsplit(".", 1)[-1] in helper_names for c in calls_in(f0.node)):
             continue
-        f = _nf(ctx, f0, *HAND_BACK, alias="dotted")
+        f = _nf(ctx, f0, *_HAND_BACK_KEEP, alias="dotted")
         g = ctx.cfg(f)
         sites = []
         for n in g.nodes:
@@ -1037,23 +1106,27 @@ def _no_touch_after_hand_back(ctx):
                     sites.append((n.id, c, hb[0], hb[1]))
         if not sites:
             continue
+
+        def rebinds(head):
+            return [x.id for x in g.nodes if x.stmt is not None and x.kind in ("stmt", "for", "with_enter", "handler")
+                    and any(isinstance(y, ast.Name) and y.id == head and isinstance(y.ctx, (ast.Store, ast.Del))
+                            for part in ([x.stmt] if x.kind == "stmt" else own_exprs(x.stmt)) for y in ast.walk(part))]
         bad, w = [], None
         for nid, c, callee, obj in sites:
             ctx.require(obj is not None, f"{f.key}: cannot name the record handed back by `{unparse(c)}`")
-            head = obj.split(".")[0]
-            rebind = [x.id for x in g.nodes if x.stmt is not None and x.kind in ("stmt", "for", "with_enter", "handler")
-                      and any(isinstance(y, ast.Name) and y.id == head and isinstance(y.ctx, (ast.Store, ast.Del))
-                              for part in ([x.stmt] if x.kind == "stmt" else own_exprs(x.stmt)) for y in ast.walk(part))]
-            after = g.reachable([b for b, lab in g.succ[nid] if lab != "exc"], avoid=rebind, edge_ok=no_exc)
-            for a in sorted(after):
-                x = g.nodes[a]
-                if x.stmt is None or x.kind in ("with_exit", "handler", "join", "entry", "exit", "raise_exit"):
-                    continue
-                parts = [x.stmt] if x.kind == "stmt" else own_exprs(x.stmt) if isinstance(x.stmt, ast.stmt) else []
-                ts = [t for part in parts for t in _touches(part, obj)]
-                if ts:
-                    bad.append(f"line {ts[0].lineno}: `{unparse(ts[0])}` after `{unparse(c.func)}(...)`")
-                    w = w or g.witness([nid], [a], edge_ok=no_exc)
+            for name in sorted({obj} | _field_aliases(ctx, f, obj)):
+                # (also what an exception raised LATER leads to: the hand-back itself has completed by then)
+                after = g.reachable([b for b, lab in g.succ[nid] if lab != "exc"], avoid=rebinds(name.split(".")[0]))
+                for a in sorted(after):
+                    x = g.nodes[a]
+                    if x.stmt is None or x.kind in ("with_exit", "handler", "join", "entry", "exit", "raise_exit"):
+                        continue
+                    parts = [x.stmt] if x.kind == "stmt" else own_exprs(x.stmt) if isinstance(x.stmt, ast.stmt) else []
+                    ts = [t for part in parts for t in _touches(part, name)]
+                    if ts:
+                        bad.append(f"line {ts[0].lineno}: " + ("" if isinstance(ts[0], ast.Call) else "store to ") +
+                                   f"`{unparse(ts[0])}` after `{unparse(c.func)}(...)`")
+                        w = w or g.witness([nid], [a], avoid=rebinds(name.split(".")[0]))
         n_sites += 1
         ctx.check(not bad, f.key + ":no-touch-after-hand-back",
                   "the record is still written after it has been handed back to the pool -- " + "; ".join(sorted(set(bad))) +
